@@ -26,6 +26,17 @@ MISSED = {  # seed -> (round, what the miss changed)
  'C03_linfinite_deriv_int_dtype': ('3', "`np.full_like(x, …)` on an integer array truncates the Jacobian. New sub-check `integer-dtype`: an int64 array of interior points (what np.arange/UniformInteger produce) must give the same numbers as the same points in float64, or be rejected loudly (NumPy's 'Integers to negative integer powers' in Knowles/Handy is a clean refusal)."),
  'C04_transform_grid_memo': ('3', "`transform_1d_grid` memoises its result per (transform, grid object). C04 now gives the same source-grid object other weights through the setter and demands the same nodes with the new weights. (Editing an earlier *result* in place is deliberately not part of the check: `IdentityRTransform.transform` returns its argument, so result and source share the points array — an aliasing the properties do not forbid.)"),
  'C15_affine_shortcut_allclose': ('3', "`np.allclose(d²r/dx², 0)` (absolute tolerance 1e-8) treats a transform of very small length scale as affine; only the returned d²y/dx² of third-order problems is wrong. Pinned small-scale cases (Exp rmin=1e-7, Power rmin=1e-9, Becke R=1e-10) were added, and a quarter of the forward maps in the generator now get a length scale of 1e-3…1e-9."),
+ 'C02_nocache_inplace_norm': ('4', "with `cache=False` on an already cached Lebedev degree the cached weights are scaled by 4π in place; only the NEXT cached construction is wrong (C19 caught it). C02's route sequence got a fourth step: a cached construction after the uncached build on a cached degree."),
+ 'C06_hirshfeld-tail-guard': ('4', "division skipped where the promolecule is below 1e-20: far from all nuclei the weights no longer sum to one. The Hirshfeld sub-check compared only well-conditioned points within 8 bohr; it now asserts the sum at every point with finite weights (boxes of 30 and 100 bohr added), with the error model eps·Σ|w_A| taken from the returned weights."),
+ 'C08_trig-table-dtype': ('4', "cos/sin tables allocated with the dtype of the azimuth array: integer-dtype azimuths are truncated. For l_max ≤ 12 both implementations are now also called with the azimuths as an int64 array of whole radians (same numbers as the float call, or a loud rejection)."),
+ 'C09_spline_memo_identity': ('4', "`interpolate` memoises the splines by identity of the data array. The interpolant under test is now built from a work array that held other data in an earlier `interpolate()` call and was re-filled in place."),
+ 'C12_size_zero_falsy': ('4', "`if size:` instead of `if size is not None:` — `AngularGrid(size=0)` silently builds the default degree-50 grid. The exhaustive look-up went through the static helper; the smallest requests (0 and 1, Python and NumPy integers) now also go through the constructor."),
+ 'C18_stale-preweights-cache': ('4', "weight products of the first N-1 domains cached on the object by grid sizes. Every C18 case now scales the weights of its first domain grid through the setter and integrates again on both routes."),
+ 'C13_fourier1-2d-layout': ('4', "Fourier1 weights of a non-square 2-D grid end up transposed (sum unchanged). New metamorphic clause for every scheme, shape and dimension: the same grid described with its axes listed in reverse order carries the same weight at the same node."),
+ 'C20_becke-call-indices': ('4', "`BeckeWeights.__call__` shifts the caller's `indices` array in place, but only when it works in several chunks (≥ 4 atoms). The registry's Becke operations used 2–3 atoms; they now use 2–5."),
+ 'C04_closed-rule-domain': ('4', "new domain taken from the mapped extreme nodes when they are `np.isclose` to the domain ends: wrong for large open rules (n ≳ 400). Pinned cases with GaussChebyshev(450), GaussChebyshevType2(450), GaussLegendre(600), FejerFirst(500) were added (the generator stays at n ≤ 81: a directed addition, not a generator class)."),
+ 'C15_ivp-y0-inplace': ('4', "`solve_ode_ivp` writes the transformed initial derivatives back into the caller's float64 `y0` array. With `as_array` the same `y0` array is now shared by the transformed and the direct solve of a case and must come back untouched (C20's registry passes `y0` too, but only without a transform)."),
+ 'C16_bvp-eval-memo': ('4', "the per-atom potential closure returns its cached array for identical points, which the molecular sum then accumulates into. The displaced/two-centre sub-check now evaluates the returned potential twice at the same points: identical numbers, first array unchanged."),
 }
 def main():
     p = os.path.join(HERE, 'DESIGN.md'); s = open(p).read()
